@@ -191,6 +191,7 @@ func cmdCheck(args []string) int {
 		return 2
 	}
 	total, discharged, violations, engineFail := 0, 0, 0, 0
+	knownObls := 0
 	var recs []oblRecord
 	var samples []interface{}
 	backends := map[string]int{}
@@ -267,6 +268,8 @@ func cmdCheck(args []string) int {
 			}
 			if kf := matchKnown(known, *prop, o.Name); kf != nil {
 				knownMatched[kf.Obligation+" "+kf.What] = true
+				total-- // reported as a known finding, not part of the proved obligation set
+				knownObls++
 				continue
 			}
 			violations++
@@ -330,6 +333,7 @@ func cmdCheck(args []string) int {
 				"solver_s":                 solverTime,
 				"vacuity_covers":           covers,
 				"known_findings_matched":   kms,
+				"obligations_failing_as_known_findings": knownObls,
 				"abstracted":               sortedKeys(abstracted),
 				"samples":                  samples,
 				"obligation_list":          recs,
